@@ -62,3 +62,34 @@ theorem C14_wire_line (r : AReq) :
 -- RFC 3986 section 5.4.1, base http://a/b/c/d;p?q (evaluated: a test, not a proof)
 #guard (match resolve { scheme := "http", host := "a", port := none, path := "/b/c/d;p", query := some "q" } "../g" with | .ok u => u.text == "http://a/b/g" | _ => false)
 #guard (match resolve { scheme := "http", host := "a", port := none, path := "/b/c/d;p", query := some "q" } "g;x?y#s" with | .ok u => u.text == "http://a/b/c/g;x?y" | _ => false)
+
+/-- **C14 (an inherited Host header stays on its host; defect D13, repaired).** Among the effective headers of
+    the request created for a redirect, a `host` header is one the original request carried only if the target
+    is on the host of the original request URI — otherwise it is suppressed like the credentials of C13, no
+    effective Host header is left, and request analysis derives the header from the new URI
+    (`hostStep`: `host: <effective URI's host>`, with `followFlow_effUri`). (On the pinned tree a Host header
+    set on the original request travelled with the request to every host it was redirected to.) -/
+theorem C14_host_inherited (prev : AReq) (nm : Method) (uri : Uri) (sameHost : Bool) (h : Hdr)
+    (hin : h ∈ (followFlow prev nm uri sameHost).call.req.headers) (hn : h.name = "host") :
+    prev.uri.host = uri.host := by
+  unfold followFlow AReq.headers at hin
+  simp only [Flow.new, List.nil_append, List.mem_filter] at hin
+  obtain ⟨_, hf⟩ := hin
+  unfold unsetList at hf
+  rw [hn] at hf
+  by_cases hk : keepHostHeader prev.uri uri = true
+  · simpa [keepHostHeader] using hk
+  · simp [hk] at hf
+
+/-- the request created for a redirect has the resolved target as its effective URI -/
+theorem followFlow_effUri (prev : AReq) (nm : Method) (uri : Uri) (sameHost : Bool) :
+    (followFlow prev nm uri sameHost).call.req.effUri = uri := rfl
+
+/-- no `host` among the effective headers of the redirected request when the target left the original host -/
+theorem C14_host_suppressed (prev : AReq) (nm : Method) (uri : Uri) (sameHost : Bool)
+    (hne : prev.uri.host ≠ uri.host) :
+    ∀ h ∈ (followFlow prev nm uri sameHost).call.req.headers, h.name ≠ "host" :=
+  fun h hin hn => hne (C14_host_inherited prev nm uri sameHost h hin hn)
+
+example : keepHostHeader { scheme := "http", host := "a", port := none, path := "/", query := none }
+    { scheme := "http", host := "b", port := none, path := "/x", query := none } = false := by decide
